@@ -305,6 +305,7 @@ inline void tr_C08(const WSnap& pre, const CallInfo& ci, Outcome oc, const WSnap
     if (ci.kind == K_ANALOG_NAME || ci.kind == K_COL_ANALOG) {
         size_t k = ci.kind == K_ANALOG_NAME ? 1 : ((ci.givenFrames.empty() || ci.givenFrames[0].subs.empty()) ? 0 : ci.givenFrames[0].subs[0].size());
         bool bad = false;
+        if (!uniformFrames(pre.o)) return;   // frames with different sub-frame counts (accepted by the library, announced by no header): "every sub-frame" has no reference there
         for (size_t i = 0; i < pre.o.frames.size() && i < post.o.frames.size() && !bad; ++i)
             for (size_t s = 0; s < pre.o.frames[i].subs.size() && s < post.o.frames[i].subs.size(); ++s)
                 if (post.o.frames[i].subs[s].size() != pre.o.frames[i].subs[s].size() + k) { bad = true; break; }
